@@ -21,8 +21,14 @@ def evaluate(ck, data, rules, docg):
             continue
         d = o.get("reread_diff")
         if d:
-            who = blame or ",".join(o.get("left_fixable", [])[:2]) or "?"
-            ck.violation("reread-differs:%s:%s" % (d["kind"], who), "%s: parsing the emitted text gives %r where the in-memory model has %r (token %d)%s" % (T.tag(o), d["reread"], d["memory"], d["index"], "; first rule leaving two adjacent whitespace tokens: " + blame if blame else ""), T.rep(o, oracle="reread", detail=d))
+            def cls(x):
+                return x[0].split(".")[-2] + "." + x[0].split(".")[-1] if x else "none"
+
+            sig = "%s/%s" % (cls(d["reread"]), cls(d["memory"]))
+            if d["kind"] == "indent":
+                sig = "indent-of-" + cls(d["memory"])
+            who = blame or "-"
+            ck.violation("reread-differs:%s:%s" % (sig, who), "%s: parsing the emitted text gives %r where the in-memory model has %r (token %d)%s" % (T.tag(o), d["reread"], d["memory"], d["index"], "; first rule leaving two adjacent whitespace tokens: " + blame if blame else ""), T.rep(o, oracle="reread", detail=d))
         elif o.get("report_diff"):
             rd = o["report_diff"]
             site = (rd["only_fresh"] or rd["only_after_fix"])[0][0]
